@@ -11,6 +11,8 @@
 //!   `A <binding>* T <tree>`             end-to-end: `.du32` of the expression, `.const` before vs after
 //!   `X <statement text>`                C07 text stream: parse the statement with the real parser, evaluate its argument,
 //!                                       compare with the value under the DOCUMENTED precedence (+ `.du32` bytes)
+// catch-all arms keep the harness compiling when the crate adds a variant to one of its error enums (the outcome is then `unknown:<Debug>`)
+#![allow(unreachable_patterns)]
 use std::collections::BTreeMap;
 use std::path::PathBuf;
 use std::sync::Arc;
@@ -304,6 +306,7 @@ fn ov_name(e: &OverflowError) -> &'static str
 		OverflowError::Modulo{..} => "modulo",
 		OverflowError::LeftShift{..} => "leftshift",
 		OverflowError::RightShift{..} => "rightshift",
+		_ => "unknown",
 	}
 }
 
@@ -359,6 +362,7 @@ fn real_simplify(t: &T) -> Out
 		Ok((Ok(changed), tree)) => Out::Ok{changed, cause: None, tree},
 		Ok((Err(SimplifyError::BadType{kind, op}), _)) => Out::Err(format!("badtype {} {}", ty_name(kind), ty_name(op))),
 		Ok((Err(SimplifyError::Overflow(e)), _)) => Out::Err(format!("overflow {}", ov_name(&e))),
+		Ok((Err(e), _)) => Out::Err(format!("unknown:{e:?}")),
 		Err(p) => Out::Panic(p),
 	}
 }
@@ -373,6 +377,7 @@ fn real_neutralize(t: &T) -> Out
 		Ok((Ok(changed), tree)) => Out::Ok{changed, cause: None, tree},
 		Ok((Err(SimplifyError::BadType{kind, op}), _)) => Out::Err(format!("badtype {} {}", ty_name(kind), ty_name(op))),
 		Ok((Err(SimplifyError::Overflow(e)), _)) => Out::Err(format!("overflow {}", ov_name(&e))),
+		Ok((Err(e), _)) => Out::Err(format!("unknown:{e:?}")),
 		Err(p) => Out::Panic(p),
 	}
 }
@@ -409,6 +414,7 @@ fn real_evaluate(t: &T, known: &BTreeMap<String, i64>, deferred: &[String]) -> O
 		Ok((Err(EvalError::NoSuchVariable{name, ..}), tree)) => Out::Err(format!("nosuch {} {}", hex(name.as_ref().as_bytes()), tree.text())),
 		Ok((Err(EvalError::BadType{kind, op}), _)) => Out::Err(format!("badtype {} {}", ty_name(kind), ty_name(op))),
 		Ok((Err(EvalError::Overflow(e)), _)) => Out::Err(format!("overflow {}", ov_name(&e))),
+		Ok((Err(e), _)) => Out::Err(format!("unknown:{e:?}")),
 		Err(p) => Out::Panic(p),
 	}
 }
@@ -1152,6 +1158,7 @@ fn eval_error_out(e: EvalError) -> Out
 		EvalError::NoSuchVariable{name, ..} => Out::Err(format!("nosuch {}", hex(name.as_ref().as_bytes()))),
 		EvalError::BadType{kind, op} => Out::Err(format!("badtype {} {}", ty_name(kind), ty_name(op))),
 		EvalError::Overflow(e) => Out::Err(format!("overflow {}", ov_name(&e))),
+		e => Out::Err(format!("unknown:{e:?}")),
 	}
 }
 
@@ -1183,6 +1190,7 @@ fn run_text(stmt: &str) -> Result<Parsed, String>
 			Ok((Ok(changed), tree)) => Out::Ok{changed, cause: None, tree},
 			Ok((Err(SimplifyError::BadType{kind, op}), _)) => Out::Err(format!("badtype {} {}", ty_name(kind), ty_name(op))),
 			Ok((Err(SimplifyError::Overflow(e)), _)) => Out::Err(format!("overflow {}", ov_name(&e))),
+		Ok((Err(e), _)) => Out::Err(format!("unknown:{e:?}")),
 			Err(p) => Out::Panic(p),
 		};
 		let ctx = Context::new(&Arm6M, &directives);
